@@ -142,8 +142,8 @@ def _get_sampler(check: Check, ci):
            f'no client is repeated within a round and ids keep trailing zero bytes: {why}')
   # datasets from the same federated data for exactly those ids
   gc = [c for _, c in ff.calls() if isinstance(c.func, ast.Attribute) and c.func.attr == 'get_clients']
-  okg = len(gc) == 1 and txt(gc[0].func.value) == 'self._federated_data' and len(gc[0].args) == 1 and isinstance(
-      gc[0].args[0], ast.Name) and gc[0].args[0].id == ids_name
+  okg = len(gc) == 1 and txt(gc[0].func.value) == 'self._federated_data' and len(gc[0].args) == 1 and len(choice) == 1 and any(
+      v is choice[0] for v in ff.expand(gc[0].args[0]))
   check.ob('R-CHOICE', sample, txt(gc[0])[:70] if gc else 'get_clients', okg,
            'datasets are fetched for exactly the sampled ids from the sampler\'s own dataset')
   # keys
